@@ -884,7 +884,10 @@ func (s *sim) Next(rng *simcore.RNG) simcore.Op {
 				tx = fmt.Sprintf("retainover:%d", s.txSeq)
 			}
 		}
-		if s.cfg.Bool("valtx") && rng.Bool(0.3) {
+		if s.cfg.Bool("valtx") && rng.Bool(0.08) {
+			// a consensus-parameter update returned by EndBlock (in force from the next height on)
+			tx = fmt.Sprintf("param:maxbytes:%d", []int{3000000, 8000000, 22020096}[rng.Intn(3)]+s.txSeq)
+		} else if s.cfg.Bool("valtx") && rng.Bool(0.3) {
 			vi := rng.Intn(len(s.nodes))
 			tx = fmt.Sprintf("val:%x:%d", s.nodes[vi].key.PubKey().Bytes(), rng.Range(1, 12))
 		}
